@@ -41,11 +41,15 @@ TEXT = {
 NOTE = "Trusted base: the harness reference models under mc/refmodels and the oracles in mc/props; numpy/xarray/numba as installed; for the cache: a logical clock replaces wall-clock file stamps and process death is modelled as a directory snapshot between library-visible steps (no torn sectors)."
 
 
+# modules that are finished, reviewed and silent on the unchanged tree (claimed in MANIFEST.json)
+READY = ["C07", "C18"]
+
+
 def main():
     checks = []
     na = []
     for pid, (level, engine, ref, tech) in sorted(CHECKS.items()):
-        if os.path.exists(os.path.join(VERIF, "mc", "props", pid.lower() + ".py")):
+        if pid in READY and os.path.exists(os.path.join(VERIF, "mc", "props", pid.lower() + ".py")):
             checks.append(
                 {
                     "property_id": pid,
